@@ -462,6 +462,8 @@ class NP:
             lo, hi = pyval(args[0]), pyval(args[1])
             n = z_ite(cmpop('>', hi, lo), binop('-', hi, lo), 0)
             return STensor((n,), lambda i: binop('+', lo, i), 'int')
+        if len(args) == 2 and (V.is_real_like(args[0]) or V.is_real_like(args[1])):
+            args = (args[0], args[1], 1)
         if len(args) == 3:
             h = self.unit.arange_hook(interp, args, line)
             if h is not NotImplemented:
